@@ -51,6 +51,15 @@ fn main() {
             dispatch!(args[2].as_str(), run_property, &ctx)
         }
         "probes" => c16::list_probes(),
+        // run one libFuzzer input file through the fuzz entry point of a property: rrtk-verif fuzzone:<ID> <file>
+        m if m.starts_with("fuzzone:") => {
+            let data = std::fs::read(&args[2]).unwrap_or_default();
+            fn go<P: Property>(data: &[u8]) -> i32 {
+                checks::fuzz::run::<P>(data);
+                0
+            }
+            dispatch!(&m[8..], go, &data)
+        }
         "replay" => {
             let path = std::path::PathBuf::from(&args[2]);
             let text = std::fs::read_to_string(&path).unwrap_or_else(|e| {
